@@ -69,6 +69,7 @@ class Context(object):
         self.tier = tier
         self._progs = {}
         self._eff = {}
+        self.broken = []
         self.t0 = time.time()
 
     def program(self, cfg, ndebug=True):
@@ -78,6 +79,13 @@ class Context(object):
             p = frontend.load_program(cfg, ndebug)
             self._progs[k] = p
         return p
+
+    def add(self, out, label, rule_fn, *args, **kw):
+        """Run one rule; an AnalysisBroken inside it is recorded (exit 2 unless another rule reports a violation)."""
+        try:
+            out.append((label, rule_fn(*args, **kw)))
+        except AnalysisBroken as e:
+            self.broken.append('%s: %s' % (getattr(rule_fn, '__name__', 'rule'), e))
 
     def effects(self, prog):
         from .effects import Effects
@@ -160,7 +168,12 @@ def run_property(prop, tier, rules_for, meta):
                 json.dump(dict(property=prop, **f.to_json()), fh, indent=1, default=str)
             print('%s: rule %s: %s (in %s) [key %s]' % (f.loc, f.rule, f.msg, f.func, f.key))
             print('VIOLATION property=%s replay=%s' % (prop, rp))
-    _write_evidence(evidence_path, prop, tier, seed, meta, results, new, old, time.time() - t0)
+    if ctx.broken:
+        for b in ctx.broken:
+            print('ANALYSIS-BROKEN property=%s: %s' % (prop, b))
+        if rc == 0:
+            rc = 2
+    _write_evidence(evidence_path, prop, tier, seed, meta, results, new, old, time.time() - t0, broken='; '.join(ctx.broken) if ctx.broken else None)
     total_ob = sum(a['obligations'] for a in agg.values())
     total_di = sum(a['discharged'] for a in agg.values())
     print('property %s tier %s: %d obligations, %d discharged, %d new violation(s), %d known finding(s), %.1fs' % (
